@@ -71,6 +71,41 @@ def limbs_value(rng, nl, pattern=None):
     return big(rng, nl, pattern)
 
 
+def nlimbs(v):
+    return (v.bit_length() + 63) // 64
+
+
+def big_base_of(nl, r):
+    """(big_base, big_power) that to_radix_digits_le computes for an nl-limb value: `base` squared until it has
+    at least isqrt(nl) limbs"""
+    bb, bp = radix_power(r)[0], 1
+    target = math.isqrt(nl)
+    while nlimbs(bb) < target:
+        bb, bp = bb * bb, bp * 2
+    return bb, bp
+
+
+def superchunk_values(rng, nl, r, count=2):
+    """values of about nl >= BIGBASE limbs on the boundaries of the super-chunk loop (digit-level `digits > big_base`,
+    `digits.div_rem(&big_base)`, `div_rem_digit(big_r, base)`): big_base^m (the loop ends with digits == big_base, every
+    big_r is zero), big_base^m ± 1, (big_base+1)·big_base^(m-1) (last quotient 1, remainder 1), sparse super-chunks"""
+    bb, _ = big_base_of(nl, r)
+    m = max(1, (nl * 64) // bb.bit_length())
+    p = bb ** m
+    q = bb ** (m - 1)
+    cands = [p, p - 1, p + 1, (bb + 1) * q, (bb - 1) * q, p + bb, rng.randrange(1, bb) * q + rng.randrange(r),
+             rng.randrange(1, bb) * q + rng.randrange(1, bb) * bb ** rng.randrange(m), 2 * p, bb * (p - 1)]
+    rng.shuffle(cands)
+    out = []
+    for v in cands:
+        n2 = nlimbs(v)
+        if n2 >= BIGBASE and big_base_of(n2, r)[0] == bb:
+            out.append(v)
+        if len(out) >= count:
+            break
+    return out
+
+
 def value_set(rng, r, tier, big_lens):
     """values for radix r: 0, one digit, zero-run patterns r^k / r^k±1, around chunk boundaries,
     and the requested multi-limb lengths"""
@@ -92,6 +127,14 @@ def value_set(rng, r, tier, big_lens):
             k = int(nl * 64 / math.log2(r)) - rng.randrange(0, 3)
             vs.append(r ** k + rng.choice([0, -1, 1]))
     return vs
+
+
+def superchunk_set(rng, r, tier, big_lens, count):
+    """super-chunk boundary values for every requested length that takes the big-base path"""
+    if is_pow2(r):
+        return []
+    # the digit-level model column costs ~3 ms (64 limbs) … 2.8 s (2000 limbs) per request: none at the huge sizes
+    return [v for nl in big_lens if BIGBASE <= nl < 300 for v in superchunk_values(rng, nl, r, count)]
 
 
 def big_lengths(rng, tier, i):
@@ -189,7 +232,8 @@ def gen(rng, tier):
     for rnd in range(rounds):
         # ---------------------------------------------------------------- emit: text, radices 2..36
         for i, r in enumerate(range(2, 37)):
-            vs = value_set(rng, r, tier, big_lengths(rng, tier, i + rnd))
+            bl = big_lengths(rng, tier, i + rnd)
+            vs = value_set(rng, r, tier, bl) + superchunk_set(rng, r, tier, bl, 1 if thorough else 2)
             for v in vs:
                 reqs.append("C06 u.to_str %s %d" % (wu(v), r))
                 if rng.randrange(3) == 0 or v == 0:
@@ -207,6 +251,7 @@ def gen(rng, tier):
                 rest = vs[9:]
                 rng.shuffle(rest)
                 vs = [0] + rng.sample(head, 3) + rest[:6] + vs[-len(bl):]
+            vs = vs + superchunk_set(rng, r, tier, bl, 1 if thorough or r > 36 else 2)
             for v in vs:
                 op = rng.choice(["u.to_radix_le", "u.to_radix_le", "u.to_radix_be", "i.to_radix_le", "i.to_radix_be"])
                 if op[0] == "u":
